@@ -303,9 +303,10 @@ func (se *session) initHS() map[string]any {
 		cs, ss := uc.ConnectionState(), srv.ConnectionState()
 		ev["cvers"], ev["csuite"], ev["svers"], ev["ssuite"] = int(cs.Version), int(cs.CipherSuite), int(ss.Version), int(ss.CipherSuite)
 	}
-	// the handshake flights are not part of the data phase
+	// the handshake flights are not part of the data phase (how many bytes they were is logged)
 	c.seen = len(c.tr.Written())
 	s.seen = len(s.tr.Written())
+	ev["sent0"] = map[string]any{"c": c.seen, "s": s.seen}
 	return ev
 }
 
@@ -328,7 +329,7 @@ func (se *session) initForged(rng *mrand.Rand) map[string]any {
 		s.rw, s.conn = ss, ss
 	}
 	return map[string]any{"ev": "Init", "cerr": "", "serr": "", "cnil": cc == nil, "snil": ss == nil,
-		"cvers": 0, "csuite": 0, "svers": 0, "ssuite": 0}
+		"cvers": 0, "csuite": 0, "svers": 0, "ssuite": 0, "sent0": map[string]any{"c": 0, "s": 0}}
 }
 
 // ---------------------------------------------------------------- operations
